@@ -497,13 +497,39 @@ def _audit_park(event, args):
     _PARK["holds"].clear()
 
 
-def run_two_instances(world, pre, setup, req_a, req_b, etags, cache_mode="none", construct_late=False, wait=0.25, park="enter"):
+class _FcntlProxy:
+    """Stands in for the `fcntl` name of radicale/pathutils.py: the flock() calls of the thread that has
+    `_tls.flock_errno` set fail with that errno (ENOLCK on NFS, ENOTSUP on FUSE, EIO ...), as a fault at that one
+    system call would."""
+
+    def __init__(self, real):
+        self._real = real
+
+    def __getattr__(self, name):
+        return getattr(self._real, name)
+
+    def flock(self, fd, cmd):
+        e = getattr(_tls, "flock_errno", None)
+        if e is not None:
+            _tls.flock_faults = getattr(_tls, "flock_faults", 0) + 1
+            raise OSError(e, os.strerror(e))
+        return self._real.flock(fd, cmd)
+
+
+def run_two_instances(world, pre, setup, req_a, req_b, etags, cache_mode="none", construct_late=False, wait=0.25, park="enter",
+                      flock_errno=None):
     """Two Applications over ONE storage folder (multifilesystem: flock), as two server processes would be.
     Instance 1 serves A; A is parked INSIDE its first exclusive critical section (it holds the storage lock).
     Then (construct_late: instance 2 is constructed only now -- a worker started while a request is in flight)
     instance 2 serves B in another thread.  B must not enter any critical section before A has left its own.
     cache_mode: "none" (option not set), "shared" (one cache folder), "distinct" (one cache folder per instance).
+    flock_errno: every flock() of instance 2's request fails with this errno (fault injection at that system call): the
+    request must then FAIL (and change nothing), it must not run without the lock.
     -> dict(entered_while_held=[...], resps=[cA, cB], store, errors)"""
+    import radicale.pathutils as rpath
+    real_fcntl = rpath.fcntl._real if isinstance(rpath.fcntl, _FcntlProxy) else rpath.fcntl
+    if flock_errno is not None:
+        rpath.fcntl = _FcntlProxy(real_fcntl)
     set_policy(world)
     folder = tempfile.mkdtemp(prefix="rv-c09-inst-")
     caches = {"none": (None, None), "shared": (folder + "-cache", folder + "-cache"),
@@ -547,6 +573,8 @@ def run_two_instances(world, pre, setup, req_a, req_b, etags, cache_mode="none",
 
         def body(k, srv_get, who, q):
             ident[threading.get_ident()] = who
+            if who == "B" and flock_errno is not None:
+                _tls.flock_errno = flock_errno
             if who == "A" and park == "rename":
                 if not _PARK.get("installed"):
                     sys.addaudithook(_audit_park)
@@ -556,6 +584,8 @@ def run_two_instances(world, pre, setup, req_a, req_b, etags, cache_mode="none",
                 res[k] = xh.Runner(etags).one(srv_get(), q[0], q[1])
             except BaseException as e:  # noqa
                 errors[k] = repr(e)
+            finally:
+                _tls.flock_errno = None
 
         wrap(srv1, "A")
         ta = threading.Thread(target=body, args=(0, lambda: srv1, "A", req_a), daemon=True)
@@ -577,6 +607,7 @@ def run_two_instances(world, pre, setup, req_a, req_b, etags, cache_mode="none",
         return dict(setup=outs, resps=res, store=store, errors=errors, parked=parked, events=events,
                     entered_while_held=entered, b_done_while_held=b_done_while_held)
     finally:
+        rpath.fcntl = real_fcntl
         shutil.rmtree(folder, ignore_errors=True)
         for c in set(caches):
             if c:
@@ -804,8 +835,9 @@ def run_cold_item_readers(storage_type, variant, req_kind, rounds=2):
 class _HttpSrv:
     """Looks like impl.Server to x_handlers.Runner, but sends the request over HTTP to one listening socket."""
 
-    def __init__(self, port):
+    def __init__(self, port, folder=None):
         self.port = port
+        self.folder = folder
 
     def request(self, method, path, data=None, login=None, environ=None, **headers):
         import base64
@@ -873,7 +905,7 @@ def run_served_pair(world, pre, setup, req_a, req_b, etags, storage_type="multif
                 break
             except OSError:
                 time.sleep(0.05)
-        s1, s2 = _HttpSrv(p1), _HttpSrv(p2)
+        s1, s2 = _HttpSrv(p1, holder.folder), _HttpSrv(p2, holder.folder)
         runner = xh.Runner(etags)
         outs = [runner.one(s1, ui, r) for ui, r in setup]
         inside, resume, holds = threading.Event(), threading.Event(), threading.Event()
